@@ -113,7 +113,15 @@ def _check_outcome(script, exp, check_vars=True):
 
 def check_script(case):
     i = case["input"]
-    return _check_outcome(i["script"], i["expected"])
+    r = _check_outcome(i["script"], i["expected"])
+    if r is None and i.get("strict_rel") is not None:
+        # C03 "relative 1e-12": for results of tiny magnitude the mixed absolute/relative tolerance of base.num_close says nothing
+        p, _ = _load(i["script"])
+        actual = complex(p.operations[-1]["args"][0])
+        want = complex(*i["strict_rel"])
+        if abs(actual - want) > 1e-12 * abs(want):
+            return {"expected": "value %r within relative 1e-12" % (want,), "actual": "%r (relative error %.3g)" % (actual, abs(actual - want) / abs(want))}
+    return r
 
 
 # ---------------------------------------------------------------------------------------------------------------------
@@ -157,7 +165,31 @@ def _expr_case(rng, deep):
     pos = rng.choice(["arg", "arg", "arg", "arg", "arg", "arg", "kwarg", "kwlist", "init-float", "init-complex", "init-int", "arg2"])
     want = {"init-float": "real", "init-int": "int"}.get(pos, "any")
     r = rng.random()
-    if r < 0.22 and want != "int":
+    strict = False
+    if r < 0.06:
+        pos, want = "arg", "any"
+    if r < 0.06 and want != "int":
+        strict = True
+        # a named function at an argument where the RELATIVE accuracy of the result matters: tiny arguments, arguments near zeros
+        # of the function, many significant digits (absolute rounding / truncation of results shows up only here)
+        f = rng.choice(["sin", "tan", "sinh", "tanh", "arcsin", "arctan", "arcsinh", "arctanh", "sin", "cos", "tan", "exp", "log", "sqrt"])
+        if f == "cos":
+            t = rng.choice(["1.5707", "1.57079", "4.7123", "1.570796"])
+        elif f == "log":
+            t = rng.choice(["1.0000001234567", "1.00001234", "0.99999912345"])
+        elif f in ("exp", "sqrt"):
+            t = "%d.%de-%d" % (rng.randint(1, 9), rng.randint(100000, 999999999), rng.randint(5, 9))
+        else:
+            t = rng.choice(["%d.%de-%d" % (rng.randint(1, 9), rng.randint(100000, 999999999), rng.randint(4, 12)), "3.1415", "3.14159", "6.2831"]) \
+                if f in ("sin", "tan") else "%d.%de-%d" % (rng.randint(1, 9), rng.randint(100000, 999999999), rng.randint(4, 12))
+        val = G.Fraction(t)
+        e = ("fn", f, ("num", t, G.V("float", val, G.ZERO, G.lit_err(val)), "float-smallarg"))
+        try:
+            v = G.ev(e, env)
+        except G.Bad:
+            strict = False
+            e, v = G.gen_expr(rng, env, 3, want)
+    elif r < 0.22 and want != "int":
         e, _ = G.special_tree(rng, env)
         v = G.ev(e, env)
         if want == "real" and v.k == "complex":
@@ -188,7 +220,14 @@ def _expr_case(rng, deep):
         name = "val" if "val" not in env else "val_1"
         prog.add("decl", "%s %s = %s" % (t, name, text))
         prog.expected["variables"].append([name, G.enc(G.cast(v, t))])
-    return {"class": cls, "input": {"script": prog.script(), "expected": prog.expected, "expression": text, "position": pos}}
+    inp = {"script": prog.script(), "expected": prog.expected, "expression": text, "position": pos}
+    if strict and v.k in ("int", "float") and v.re != 0:
+        # the literal denotes the double CPython reads from it; the function of THAT number, to 50 digits
+        import mpmath as _mp
+        _mp.mp.dps = 50
+        fn = {"arcsin": "asin", "arccos": "acos", "arctan": "atan", "arcsinh": "asinh", "arccosh": "acosh", "arctanh": "atanh"}.get(e[1], e[1])
+        inp["strict_rel"] = [float(getattr(_mp, fn)(_mp.mpf(float(e[2][1])))), 0.0]
+    return {"class": cls, "input": inp}
 
 
 def cases_expr_value(rng, n, tier):
